@@ -616,16 +616,25 @@ impl<A: Container> Exec<A> {
                     return Ok(());
                 }
                 let locked_src = self.regs[i].0.expect().1;
-                if locked_src && self.refusing_now() {
-                    return Ok(()); // Clone does not return Result: outside C19's statement at/after the fault point
-                }
-                let c: Option<Reg<A>> = match &self.regs[i].0 {
+                // Clone does not return a Result: at / after the fault point a panic is allowed, but the source region
+                // was created earlier and must stay valid (check_all below re-examines it)
+                let allowed_to_panic = locked_src && self.refusing_now();
+                let c: Option<Reg<A>> = if allowed_to_panic {
+                    no_panic(|| match &self.regs[i].0 {
+                        Reg::L(p) => A::clone_locked(p).map(Reg::L),
+                        Reg::LRO(p) => A::clone_locked_ro(p).map(Reg::LRO),
+                        _ => None,
+                    })
+                    .unwrap_or(None)
+                } else {
+                    match &self.regs[i].0 {
                     Reg::Plain(a) => Some(Reg::Plain(caught("HeapBytes::clone", || a.clone())?)),
                     Reg::U(p) => Some(Reg::U(caught("Unlocked::clone", || p.clone())?)),
                     Reg::URO(p) => Some(Reg::URO(caught("UnlockedRO::clone", || p.clone())?)),
                     Reg::L(p) => caught("Locked::clone", || A::clone_locked(p))?.map(Reg::L),
                     Reg::LRO(p) => caught("LockedRO::clone", || A::clone_locked_ro(p))?.map(Reg::LRO),
                     _ => None,
+                    }
                 };
                 if let Some(c) = c {
                     let id = self.next_id;
@@ -652,14 +661,40 @@ impl<A: Container> Exec<A> {
                 let n = BYTES_LENGTHS[li % BYTES_LENGTHS.len()];
                 let fillv = 1 + (stepno % 200) as u8;
                 let is_locked = matches!(self.regs[i].0, Reg::L(_));
+                let mut pre: Option<bool> = None;
                 if is_locked && self.refusing_now() {
-                    return Ok(()); // locked resize does not return Result
+                    // Locked::resize does not return a Result, so a panic on a refused lock is allowed - but the
+                    // region it was called on was created earlier and must stay valid: usable, same type state,
+                    // and either resized or (after a panic) with its old length and contents
+                    let old_len = self.regs[i].1.bytes.len();
+                    let r = match &mut self.regs[i].0 {
+                        Reg::L(p) => no_panic(|| A::resize_locked(p, n, fillv)),
+                        _ => return Ok(()),
+                    };
+                    match r {
+                        Ok(d) => pre = Some(d),
+                        Err(_) => {
+                            let after = no_panic(|| self.regs[i].0.view().map(|v| v.len()));
+                            match after {
+                                Err(p) => return Err(format!("Locked::resize panicked on a refused lock (allowed) but left the region it was called on unusable: as_slice panicked: {p} at {}", last_panic_loc())),
+                                Ok(Some(l)) if l == old_len => {
+                                    self.stats.clone_or_resize_of_locked += 1;
+                                    touched = Some(i);
+                                    pre = Some(false);
+                                }
+                                Ok(l) => return Err(format!("Locked::resize panicked on a refused lock (allowed) but the region it was called on now reports length {l:?} (was {old_len})")),
+                            }
+                        }
+                    }
                 }
-                let done = match &mut self.regs[i].0 {
-                    Reg::Plain(a) => caught("HeapBytes::resize", || A::resize_plain(a, n, fillv))?,
-                    Reg::U(p) => caught("Unlocked::resize", || A::resize_unlocked(p, n, fillv))?,
-                    Reg::L(p) => caught("Locked::resize", || A::resize_locked(p, n, fillv))?,
-                    _ => false,
+                let done = match pre {
+                    Some(d) => d,
+                    None => match &mut self.regs[i].0 {
+                        Reg::Plain(a) => caught("HeapBytes::resize", || A::resize_plain(a, n, fillv))?,
+                        Reg::U(p) => caught("Unlocked::resize", || A::resize_unlocked(p, n, fillv))?,
+                        Reg::L(p) => caught("Locked::resize", || A::resize_locked(p, n, fillv))?,
+                        _ => false,
+                    },
                 };
                 if done {
                     let m = &mut self.regs[i].1;
